@@ -10,9 +10,16 @@ PROPOSED_PATCH = {
         (r"(            if \( vbi_proxyd_take_service_req\(req, pBody->service_req\.services,)",
          "            if (pBody->service_req.strict < VBI_MIN_STRICT) pBody->service_req.strict = VBI_MIN_STRICT;\n"
          "            else if (pBody->service_req.strict > VBI_MAX_STRICT) pBody->service_req.strict = VBI_MAX_STRICT;\n\\1"),
+        # J. VBI_GET_SERVICE_P forms services + strict before adding 1: for strict == -1 a pointer before the array (UBSan: index -1 out of bounds)
+        (r"#define VBI_GET_SERVICE_P\(PREQ,STRICT\)  \(\(PREQ\)->services \+ \(signed\)\(STRICT\) - VBI_MIN_STRICT\)",
+         "#define VBI_GET_SERVICE_P(PREQ,STRICT)  ((PREQ)->services + ((signed)(STRICT) - VBI_MIN_STRICT))"),
         # C. NOTIFY(TOKEN): only a client that has (or is being given) the token can return it
         (r"else if \(pBody->chn_notify_req\.notify_flags & VBI_PROXY_CHN_TOKEN\)",
          "else if ((pBody->chn_notify_req.notify_flags & VBI_PROXY_CHN_TOKEN) && (req->chn_state.token_state != REQ_TOKEN_NONE))"),
+        # H. SERVICE_CNF is assembled through the connect_cnf layout (copy/paste): pattern pointer of the daemon stays in the reply, the
+        #    "not capturing" defaults land outside service_cnf.dec
+        (r"(?s)(case MSG_TYPE_SERVICE_REQ:\s*if \(req->state == REQ_STATE_FORWARD\).*?vbi_proxy_msg_write\(&req->io, MSG_TYPE_SERVICE_CNF,)",
+         lambda m: m.group(1).replace("connect_cnf.dec", "service_cnf.dec")),
         # D. channel_update: flush only an open device
         (r"if \(forced_switch\)\n(\s*)\{\n(\s*)vbi_capture_flush\(p_proxy_dev->p_capture\);",
          "if (forced_switch && (p_proxy_dev->p_capture != NULL))\n\\1{\n\\2vbi_capture_flush(p_proxy_dev->p_capture);"),
@@ -47,7 +54,7 @@ def obligations(tier, seed):
            "time stamps in [0,2^32), device open <=> capture+decoder present, frame queue: every queued frame referenced exactly by the clients at or before it, "
            "never both queued and free, cursors inside the queue; connections are WAIT_CON_REQ (as vbi_proxyd_add_connection leaves them) or FORWARD"]
     WORLD = ("-buffers 1; every client asks for 1 buffer; device 0 open with 2 one-line frame buffers (NQ queued, cursors symbolic) or closed, device 1 closed; "
-             "clock in [0,2^32); update_services: first 4 calls scripted, later ones grant nothing")
+             "clock in [0,2^32); |min_duration| < 2^40; update_services: first 4 calls scripted, later ones grant nothing")
     g = lambda **kw: dict(kw)
     # ---- (1) message handling ----
     msg_q = [g(MSGT=t, NCL=2, ACT=0, BDEV=0, DEVOPEN=1, NQ=1) for t in (3, 8, 11, 14, 15, 18, 22)]
